@@ -22,7 +22,7 @@ pub enum PatClass {
     Ascii,
 }
 
-const CH1: &[char] = &['a', 'b', 'c', 'd', ' ', 'x', 'z', '0', '-', '\u{1}', '\u{7f}'];
+const CH1: &[char] = &['a', 'b', 'c', 'd', ' ', 'x', 'z', '0', '-', '\u{1}', '\u{7f}', '\u{0}'];
 const CH2: &[char] = &['é', 'ß', 'ñ', 'Ω', 'ж', '\u{80}', '\u{7ff}'];
 const CH3: &[char] = &['世', '界', '全', 'に', '中', '\u{800}', '\u{ffff}', '€'];
 const CH4: &[char] = &['😀', '𝄞', '\u{10000}', '\u{10ffff}', '🦀'];
